@@ -213,7 +213,9 @@ class VLoop(asyncio.SelectorEventLoop):
                     self.gex.step(jobs[0])
                     return orig(0)
                 raise Quiescent('no timers, no I/O, no jobs')
-            self.vt += timeout
+            # advance virtual time to the next timer - but not past the release time of a held job
+            holds = [j.release_at - self.vt for j in jobs if j.release_at is not None and j.release_at > self.vt]
+            self.vt += min([timeout] + holds)
             return []
         self._selector.select = select
 
@@ -226,7 +228,10 @@ class VLoop(asyncio.SelectorEventLoop):
             return self.chooser(self, jobs, busy)
         def lp(j):
             if j.longpark is True:
-                return True
+                # held wherever it is: bounded by decisions and by virtual time (a blocked thread comes back eventually)
+                if j.release_at is None:
+                    j.release_at = self.vt + 120.0
+                return self.vt < j.release_at
             if j.longpark in ('job-end', 'start') and j.label == j.longpark:
                 # held before it starts, or where its work is done but its result not yet delivered, for a bounded virtual time
                 if j.release_at is None:
